@@ -73,12 +73,58 @@ TCycle == /\ l <= Len(Trace) /\ Trace[l].ev = "Cycle" /\ ~skip
                 /\ (~ConservedObs(r, obs, f[r]) => Viol([line |-> l, sc |-> Trace[l].sc, r |-> r, kind |-> "conserve", fed |-> f[r], got |-> obs]))
           /\ l' = l + 1 /\ UNCHANGED <<cfg, tab, fm, skip>>
 
-TSkipped == /\ l <= Len(Trace) /\ Trace[l].ev = "Cycle" /\ skip
+(* Par{sc,pre,par,post,obs} (single reader): pre sequentially, then the          *)
+(* measurements par CONCURRENTLY (one goroutine each, every one a different      *)
+(* attribute set not seen before, equal values), then post sequentially, then   *)
+(* one collection at quiescence.  Every aggregator serialises its measurements, *)
+(* so some serial order must explain obs; with fresh distinct sets and equal     *)
+(* values the outcome only depends on which of them came first.                  *)
+Without(s, k) == [j \in 1..(Len(s) - 1) |-> IF j < k THEN s[j] ELSE s[j + 1]]
+TPar == /\ l <= Len(Trace) /\ Trace[l].ev = "Par" /\ ~skip
+        /\ LET pre == Trace[l].pre
+               par == Trace[l].par
+               post == Trace[l].post
+               obs == Trace[l].obs
+               tmp == cfg.readers[1].temp
+               order(k) == pre \o <<par[k]>> \o Without(par, k) \o post
+               mod(k) == ApplyAll(cfg.limit, tab[1], fm[1], ss[1], order(k))
+               ok == {k \in 1..Len(par) : ObsSet(obs) = Report(tmp, tab[1], mod(k))}
+               pick == IF ok # {} THEN CHOOSE k \in ok : TRUE ELSE 1
+               f == AddFed(1, fed[1], pre \o par \o post)
+           IN /\ ss' = [ss EXCEPT ![1] = Reset(tmp, tab[1], mod(pick))]
+              /\ fed' = [fed EXCEPT ![1] = ResetFed(1, f)]
+              /\ (~(NoDup(obs) /\ ok # {}) =>
+                    Viol([line |-> l, sc |-> Trace[l].sc, r |-> 1, kind |-> "state", want |-> Report(tmp, tab[1], mod(1)), got |-> obs]))
+              /\ (~BoundObs(obs) => Viol([line |-> l, sc |-> Trace[l].sc, r |-> 1, kind |-> "bound", got |-> obs]))
+              /\ (~ConservedObs(1, obs, f) => Viol([line |-> l, sc |-> Trace[l].sc, r |-> 1, kind |-> "conserve", fed |-> f, got |-> obs]))
+        /\ l' = l + 1 /\ UNCHANGED <<cfg, tab, fm, skip>>
+
+(* Pair{sc,pre,ops,obs1,obs2} (single reader): pre = synchronous measurements   *)
+(* made once; two goroutines collect the same reader at once while the           *)
+(* callbacks make the observations ops at EVERY invocation.  Collections of one  *)
+(* reader are serialised: one of the two serial orders must explain the pair.    *)
+TPair == /\ l <= Len(Trace) /\ Trace[l].ev = "Pair" /\ ~skip
+         /\ LET tmp == cfg.readers[1].temp
+                m1 == ApplyAll(cfg.limit, tab[1], fm[1], ss[1], Trace[l].pre \o Trace[l].ops)
+                w1 == Report(tmp, tab[1], m1)
+                m2 == ApplyAll(cfg.limit, tab[1], fm[1], Reset(tmp, tab[1], m1), Trace[l].ops)
+                w2 == Report(tmp, tab[1], m2)
+                o1 == Trace[l].obs1
+                o2 == Trace[l].obs2
+            IN /\ ss' = [ss EXCEPT ![1] = Reset(tmp, tab[1], m2)]
+               /\ (~(/\ NoDup(o1) /\ NoDup(o2)
+                     /\ \/ (ObsSet(o1) = w1 /\ ObsSet(o2) = w2)
+                        \/ (ObsSet(o2) = w1 /\ ObsSet(o1) = w2)) =>
+                     Viol([line |-> l, sc |-> Trace[l].sc, r |-> 1, kind |-> "overlap", want |-> w1, got |-> o1, want2 |-> w2, got2 |-> o2]))
+               /\ (~(BoundObs(o1) /\ BoundObs(o2)) => Viol([line |-> l, sc |-> Trace[l].sc, r |-> 1, kind |-> "bound", got |-> o1 \o o2]))
+         /\ l' = l + 1 /\ UNCHANGED <<cfg, tab, fm, fed, skip>>
+
+TSkipped == /\ l <= Len(Trace) /\ Trace[l].ev \in {"Cycle", "Par", "Pair"} /\ skip
             /\ l' = l + 1 /\ UNCHANGED <<cfg, tab, fm, ss, fed, skip>>
 
 TDone == l = Len(Trace) + 1 /\ Accepted(l) /\ UNCHANGED vars
 
-Next == TSetup \/ TCycle \/ TSkipped \/ TDone
+Next == TSetup \/ TCycle \/ TPar \/ TPair \/ TSkipped \/ TDone
 Spec == Init /\ [][Next]_vars
 
 (* the model-side statement holds at every step of every real trace *)
